@@ -18,6 +18,7 @@ inductive Step where
   | chain (dst : Nat) (srcs : List Nat) (cs : Bool)
   | sub (dst src : Nat) (prefixes : List Str)
   | query (c : Nat) (q : Query)
+  | fresh (dst src : Nat)                                       -- Converter(src.records, delimiter=src.delimiter)
   | dups (recs : List Record)                                   -- the listing of a strict construction
   | loadPm (dst : Nat) (pm : List (Str × Str)) (delim : Str) (strict : Bool)
   | loadPriority (dst : Nat) (data : List (Str × List Str))
@@ -91,6 +92,13 @@ def Step.exec (fold : Str → Str) (s : Slots) : Step → Slots × Val
     match s.get? ci with
     | none => (s, .bad "no such slot")
     | some c => (s, c.run q)
+  | .fresh dst src =>
+    match s.get? src with
+    | none => (s, .bad "no such slot")
+    | some c =>
+      match Conv.init? c.records c.delim true with
+      | .ok c' => (s.put dst c', .none)
+      | .error e => (s, .err e)
   | .dups recs =>
     match recs.mapM Record.validate with
     | .error e => (s, .err e)
@@ -134,6 +142,7 @@ def step (j : Json) : D Step := do
     pure (.chain (← nat "dst") srcs (boolD j "cs" true))
   | "sub" => pure (.sub (← nat "dst") (← nat "src") (← strs (← j.getObjVal? "prefixes")))
   | "q" => pure (.query (← nat "c") (← query j))
+  | "fresh" => pure (.fresh (← nat "dst") (← nat "src"))
   | "dups" => pure (.dups (← records (← j.getObjVal? "records")))
   | "load_pm" =>
     pure (.loadPm (← nat "dst") (← pairs (← j.getObjVal? "data")) (← str (fieldD j "delim" (.arr #[58])))
